@@ -167,6 +167,20 @@ impl YamlIndex<Vec<u64>> {
     }
 }
 
+/// Read-only view of the position-table cursors for the external verification harness.
+#[cfg(feature = "verif-hooks")]
+impl<W: AsRef<[u64]>> YamlIndex<W> {
+    /// `(open-position cursor, end-position cursor)`, each
+    /// `[next_open_idx, adv_cumulative, ib_word_idx, ib_ones_before, last_ib_arg,
+    /// last_ib_result]`; `None` when that table uses the dense (cursor-less) variant.
+    pub fn verif_position_cursors(&self) -> (Option<[usize; 6]>, Option<[usize; 6]>) {
+        (
+            self.open_positions.verif_cursor(),
+            self.bp_to_text_end.verif_cursor(),
+        )
+    }
+}
+
 impl<W: AsRef<[u64]>> YamlIndex<W> {
     /// Create a YAML index from pre-existing IB, BP, TY, and bp_to_text data.
     ///
